@@ -127,6 +127,7 @@ type Interp struct {
 	selCount     map[*ssa.Select]int
 	expired      atomic.Bool
 	controller   *Thread
+	implicitPts  bool
 }
 
 func NewInterp(prog *ssa.Program, cfg Config) (*Interp, error) {
